@@ -422,4 +422,144 @@ theorem dynamic_faithful_under_any_write_faults (n : Nat) (script : List WriteRe
       exact ih _ _ (sd_add_any_script c acc d h)
   exact this ds _ [] (by simp [writtenRows, Streaming.new, Better.samples])
 
+open Ftdc.Props.C07
+
+/-! ### whole histories: Add, Flush, Reset, SetMetadata, Resolve, Info in any order, under every fault script -/
+
+/-- an operation of a history on a streaming collector (`resolve`, `info` and an unreadable `Add` change nothing) -/
+inductive SOp where
+  | add (d : BDoc) | addBad | flush | reset | setMeta (d : BDoc) | resolve | info
+
+/-- the specification log (the documents accepted and not discarded by a `Reset`) carried along the history:
+an accepted `Add` appends its document; `Reset` discards what is pending, i.e. keeps as many documents as the
+complete writes hold; nothing else changes the log -/
+def stepS (acc : Streaming × List BDoc) : SOp → Streaming × List BDoc
+  | .add d => addLog acc d
+  | .flush => ((acc.1.flush).1, acc.2)
+  | .reset => (acc.1.reset, acc.2.take (writtenRows acc.1.out).length)
+  | .setMeta d => (acc.1.setMetadata d, acc.2)
+  | _ => acc
+
+theorem take_of_append_eq_map {α β : Type} (f : α → β) (w p : List β) (acc : List α) (h : w ++ p = acc.map f) :
+    w = (acc.take w.length).map f := by
+  have := congrArg (List.take w.length) h
+  simpa [List.take_append_of_le_length, List.map_take] using this
+
+/-- **C07/C09 at full strength for the streaming collector**: for every history of operations and every script
+of write results, the samples in the complete writes followed by the pending ones are exactly the documents
+accepted since the last `Reset` (plus those flushed before it), once each and in order. -/
+theorem streaming_faithful_all_histories (n : Nat) (script : List WriteResult) (ops : List SOp) :
+    let c0 : Streaming := { Streaming.new n with out := { script := script } }
+    let r := ops.foldl stepS (c0, [])
+    writtenRows r.1.out ++ r.1.inner.samples = r.2.map fun x => (extractDoc x).map (·.1) := by
+  have step : ∀ (op : SOp) (c : Streaming) (acc : List BDoc),
+      writtenRows c.out ++ c.inner.samples = acc.map (fun x => (extractDoc x).map (·.1)) →
+      writtenRows (stepS (c, acc) op).1.out ++ (stepS (c, acc) op).1.inner.samples =
+        (stepS (c, acc) op).2.map fun x => (extractDoc x).map (·.1) := by
+    intro op c acc h
+    cases op with
+    | add d => exact add_any_script c acc d h
+    | flush => exact flush_any_script c _ h
+    | reset =>
+      simp only [stepS, Streaming.reset, Better.reset, Better.samples, Option.isSome_none, Bool.false_eq_true,
+        if_false, List.append_nil]
+      exact take_of_append_eq_map _ _ _ _ h
+    | setMeta d => exact h
+    | addBad => exact h
+    | resolve => exact h
+    | info => exact h
+  have : ∀ (ops : List SOp) (c : Streaming) (acc : List BDoc),
+      writtenRows c.out ++ c.inner.samples = acc.map (fun x => (extractDoc x).map (·.1)) →
+      writtenRows (ops.foldl stepS (c, acc)).1.out ++ (ops.foldl stepS (c, acc)).1.inner.samples =
+        (ops.foldl stepS (c, acc)).2.map fun x => (extractDoc x).map (·.1) := by
+    intro ops
+    induction ops with
+    | nil => intro c acc h; exact h
+    | cons op ops ih =>
+      intro c acc h
+      simp only [List.foldl_cons]
+      have e : stepS (c, acc) op = ((stepS (c, acc) op).1, (stepS (c, acc) op).2) := rfl
+      rw [e]
+      exact ih _ _ (step op c acc h)
+  exact this ops _ [] (by simp [writtenRows, Streaming.new, Better.samples])
+
+/-- ... and a flush that reports success leaves nothing pending: everything accepted is in the complete writes -/
+theorem successful_flush_delivers_everything (c : Streaming) (acc : List BDoc)
+    (h : writtenRows c.out ++ c.inner.samples = acc.map fun x => (extractDoc x).map (·.1))
+    (hok : (c.flush).2 = true) :
+    writtenRows (c.flush).1.out = acc.map fun x => (extractDoc x).map (·.1) := by
+  have hf := flush_any_script c _ h
+  have hp : (c.flush).1.inner.samples = [] := by
+    unfold Streaming.flush at hok ⊢
+    by_cases h0 : c.info.2 = 0
+    · simp only [h0, if_true]
+      have : c.inner.ref.isSome = false := by
+        simp only [Streaming.info, Better.info] at h0
+        cases hr : c.inner.ref <;> simp_all
+      simp [Better.samples, this]
+    · simp only [h0, if_false] at hok ⊢
+      cases hres : c.resolve with
+      | none => simp [hres] at hok
+      | some docs =>
+        simp only [hres] at hok ⊢
+        cases hw : c.out.write docs with
+        | mk w ok =>
+          simp only [hw] at hok ⊢
+          by_cases hk : ok = true
+          · simp [hk, Streaming.reset, Better.reset, Better.samples]
+          · simp [hk] at hok
+  rw [hp, List.append_nil] at hf
+  exact hf
+
+/-! the schema-aware streaming collector (and the writer collector built on it) -/
+
+def stepSD (acc : StreamingDynamic × List BDoc) : SOp → StreamingDynamic × List BDoc
+  | .add d => addLogSD acc d
+  | .flush => ((acc.1.flush).1, acc.2)
+  | .reset => (acc.1.reset, acc.2.take (writtenRows acc.1.s.out).length)
+  | .setMeta d => (acc.1.setMetadata d, acc.2)
+  | _ => acc
+
+theorem streaming_dynamic_faithful_all_histories (n : Nat) (script : List WriteResult) (ops : List SOp) :
+    let c0 : StreamingDynamic := { s := { Streaming.new n with out := { script := script } } }
+    let r := ops.foldl stepSD (c0, [])
+    writtenRows r.1.s.out ++ r.1.s.inner.samples = r.2.map fun x => (extractDoc x).map (·.1) := by
+  have step : ∀ (op : SOp) (c : StreamingDynamic) (acc : List BDoc),
+      writtenRows c.s.out ++ c.s.inner.samples = acc.map (fun x => (extractDoc x).map (·.1)) →
+      writtenRows (stepSD (c, acc) op).1.s.out ++ (stepSD (c, acc) op).1.s.inner.samples =
+        (stepSD (c, acc) op).2.map fun x => (extractDoc x).map (·.1) := by
+    intro op c acc h
+    cases op with
+    | add d => exact sd_add_any_script c acc d h
+    | flush => exact sd_flush_any_script c _ h
+    | reset =>
+      simp only [stepSD, StreamingDynamic.reset, Streaming.reset, Better.reset, Better.samples, Option.isSome_none,
+        Bool.false_eq_true, if_false, List.append_nil]
+      exact take_of_append_eq_map _ _ _ _ h
+    | setMeta d => exact h
+    | addBad => exact h
+    | resolve => exact h
+    | info => exact h
+  have : ∀ (ops : List SOp) (c : StreamingDynamic) (acc : List BDoc),
+      writtenRows c.s.out ++ c.s.inner.samples = acc.map (fun x => (extractDoc x).map (·.1)) →
+      writtenRows (ops.foldl stepSD (c, acc)).1.s.out ++ (ops.foldl stepSD (c, acc)).1.s.inner.samples =
+        (ops.foldl stepSD (c, acc)).2.map fun x => (extractDoc x).map (·.1) := by
+    intro ops
+    induction ops with
+    | nil => intro c acc h; exact h
+    | cons op ops ih =>
+      intro c acc h
+      simp only [List.foldl_cons]
+      have e : stepSD (c, acc) op = ((stepSD (c, acc) op).1, (stepSD (c, acc) op).2) := rfl
+      rw [e]
+      exact ih _ _ (step op c acc h)
+  exact this ops _ [] (by simp [writtenRows, Streaming.new, Better.samples])
+
+/-! non-vacuity: a history with a failing write (the second `Add` is refused because its flush fails), a retry,
+a reset and a metadata change: two documents are accepted, one is durable, one pending -/
+example : (let r := ([SOp.add (.cons [97] (.int64 1#64) .nil), .add (.cons [97] (.int64 2#64) .nil), .flush, .flush, .reset,
+    .setMeta .nil, .add (.cons [97] (.int64 3#64) .nil)].foldl stepS
+      (({ Streaming.new 1 with out := { script := [.fail] } } : Streaming), []));
+    (r.2.length, (writtenRows r.1.out).length, r.1.inner.samples.length)) = (2, 1, 1) := by decide
+
 end Ftdc.Props.C09
